@@ -241,6 +241,9 @@ pub fn run_c07(a: &Args) {
       } }
     { let c1 = crate::conv::sync_conversations("C07", a, &mut rng, "ka", &mut st, &mut out); let c2 = crate::conv::async_conversations("C07", a, &mut rng, &mut st, &mut out); st.distinct_nontrivial += (c1.distinct.len() + c2.distinct.len()) as u64; }
     crate::c08::keepalive_sessions("C07", a, &mut st);
+    // connections made by the builder (whatever it wraps the socket in): the reply leaves although the caller never writes
+    for udp in [false, true] { for blocking in [true, false] { for compressed in [true, false] { st.evaluations += 1; st.bump("builder-made connections answering a keep-alive");
+        if let Some(w) = connect_keepalive(udp, blocking, compressed) { st.fail(format!("[C07 builder {} {}] {w}", if udp { "udp" } else { "tcp" }, if blocking { "blocking" } else { "tokio" }), format!("connka {} {} {}", udp as u8, blocking as u8, mode_tag(compressed))); } } } }
     { let iort = crate::c08::io_runtime();
       for compressed in [true, false] { for imp in ["B", "A"] { st.evaluations += 1; if let Some(w) = crate::c08::bounce_keepalive_case(imp, &iort, compressed) { st.fail(format!("[C07 udp {}] {w}", if imp == "B" { "blocking" } else { "tokio" }), format!("bounceka {imp} {}", mode_tag(compressed))); } st.bump("udp keep-alive reply meeting a bounced datagram"); } } }
     crate::net::report_unconsumed("C07", &mut st);
@@ -458,6 +461,41 @@ pub fn run_c06(a: &Args) {
     out.finish(&st);
 }
 
+
+/// connect through the real builder to a loopback peer that answers the ISI with a keep-alive and one more packet; the caller only reads.
+/// Returns None when the caller got both packets and the peer received exactly one TINY_NONE reply and nothing else, Some(description) otherwise.
+fn connect_keepalive(udp: bool, blocking: bool, compressed: bool) -> Option<String> {
+    use std::{io::{Read, Write}, net::{TcpListener, UdpSocket}, time::Duration};
+    let ka = raw_frame(compressed, 3, 0, &[0]); let ping = raw_frame(compressed, 3, 5, &[3]);
+    let tok = |r: Result<Packet, insim::Error>| match r { Ok(p) => if p.maybe_pong().is_some() { "KA".to_string() } else { format!("{:?}", p).chars().take(12).collect() }, Err(e) => format!("ERR {:?}", e).chars().take(30).collect() };
+    let rt = tokio::runtime::Builder::new_current_thread().enable_all().build().unwrap();
+    let (ka2, ping2) = (ka.clone(), ping.clone());
+    let r = guard(move || {
+        let mut b = insim::builder::Builder::new();
+        b = if compressed { b.compressed() } else { b.uncompressed() };
+        if udp {
+            let server = UdpSocket::bind("127.0.0.1:0").unwrap(); server.set_read_timeout(Some(Duration::from_millis(700))).unwrap();
+            let saddr = server.local_addr().unwrap();
+            let h = std::thread::spawn(move || { let mut buf = [0u8; 2048]; let mut got: Vec<Vec<u8>> = vec![]; if let Ok((_, from)) = server.recv_from(&mut buf) { let mut dg = ka2.clone(); dg.extend_from_slice(&ping2); let _ = server.send_to(&dg, from); while let Ok((n, _)) = server.recv_from(&mut buf) { got.push(buf[..n].to_vec()); } } got });
+            let bb = b.udp(saddr, None);
+            let out = if blocking { match bb.connect_blocking() { Ok(mut c) => { let o = vec![tok(c.read()), tok(c.read())]; std::thread::sleep(Duration::from_millis(300)); o }, Err(e) => vec![format!("connect {:?}", e)] } }
+                      else { rt.block_on(async { match bb.connect_async().await { Ok(mut c) => { let o = vec![tok(c.read().await), tok(c.read().await)]; tokio::time::sleep(Duration::from_millis(300)).await; o }, Err(e) => vec![format!("connect {:?}", e)] } }) };
+            (out, h.join().unwrap_or_default().concat())
+        } else {
+            let l = TcpListener::bind("127.0.0.1:0").unwrap(); let addr = l.local_addr().unwrap();
+            let h = std::thread::spawn(move || { let mut got = vec![]; if let Ok((mut s, _)) = l.accept() { let _ = s.set_read_timeout(Some(Duration::from_millis(700))); let mut buf = [0u8; 44]; let _ = s.read_exact(&mut buf); let _ = s.write_all(&ka2); let _ = s.write_all(&ping2); let mut rb = [0u8; 256]; while let Ok(n) = s.read(&mut rb) { if n == 0 { break; } got.extend_from_slice(&rb[..n]); } } got });
+            let bb = b.tcp(addr);
+            // the caller keeps the connection open (and silent) while the peer waits for its reply
+            let out = if blocking { match bb.connect_blocking() { Ok(mut c) => { let o = vec![tok(c.read()), tok(c.read())]; std::thread::sleep(Duration::from_millis(900)); o }, Err(e) => vec![format!("connect {:?}", e)] } }
+                      else { rt.block_on(async { match bb.connect_async().await { Ok(mut c) => { let o = vec![tok(c.read().await), tok(c.read().await)]; tokio::time::sleep(Duration::from_millis(900)).await; o }, Err(e) => vec![format!("connect {:?}", e)] } }) };
+            (out, h.join().unwrap_or_default())
+        }
+    });
+    match r {
+        None => Some("panic".into()),
+        Some((out, got)) => if out.len() == 2 && out[0] == "KA" && !out[1].starts_with("ERR") && got == ka { None } else { Some(format!("the caller's two reads gave {:?}; while it stayed silent the peer received {} instead of the one reply {}", out, hex(&got), hex(&ka))) },
+    }
+}
 
 /// connect through the real builder to a loopback peer that answers the ISI with VER(8) and VER(9); returns what two reads give
 fn connect_gate(udp: bool, blocking: bool, verify: bool, compressed: bool) -> Vec<String> {
